@@ -19,13 +19,13 @@ ASSUMPTIONS = ["sorted() is stable and itertools.groupby groups adjacent equal k
 def run(project, rep):
     schema = Schema(project)
     schema.check_floors()
-    Q.q_r1_params(project, rep)
-    Q.q_r2_keywords(project, schema, rep)
-    Q.q_r3_dispatch(project, schema, rep)
-    Q.q_r4_signon(project, rep)
-    Q.q_r5_trnuid(project, schema, rep)
-    Q.q_r6_serialize(project, rep)
-    Q.q_r7_pipeline(project, rep)
+    rep.run(Q.q_r1_params, project, rep)
+    rep.run(Q.q_r2_keywords, project, schema, rep)
+    rep.run(Q.q_r3_dispatch, project, schema, rep)
+    rep.run(Q.q_r4_signon, project, rep)
+    rep.run(Q.q_r5_trnuid, project, schema, rep)
+    rep.run(Q.q_r6_serialize, project, rep)
+    rep.run(Q.q_r7_pipeline, project, rep)
     from .. import rules_wire as W
-    W.l_r2_escaping(project, rep)
-    W.l_r2_escaping(project, rep, rule="W-R3", reader_decodable=True)
+    rep.run(W.l_r2_escaping, project, rep)
+    rep.run(W.l_r2_escaping, project, rep, rule="W-R3", reader_decodable=True)
